@@ -9,7 +9,7 @@ expectation "same code file" which is a consequence of (a), not a computed value
     items) of Outcome(o, files) is the same for all option records that agree on CodeAffecting
     (werror, suppw, codeout, maxerr) - 96 records in the quick tier, 384 in the thorough tier
     (ReportOptionsDoNotInterfere).  This only shows that the *model* has no such dependency.
-(G) Options_Gen: 24 factors = the report options named by the property (-L/-l/-OLIST, -u, -C, -s, -I, -g MAP|NOICE|
+(G) Options_Gen: 25 factors = the report options named by the property (-L/-l/-OLIST, -u, -C, -s, -I, -g MAP|NOICE|
     ATMEL, -t, -x, -n, -q, -A, -r, -E, -gnuerrors, -LISTRADIX, -P, -M, -h, -SPLITBYTE) + option source (argv | ASCMD |
     @keyfile | ASCMD=@keyfile) + working directory + output path (-o) + LANG/LC_ALL in {C, de_DE, en_US}.  TLC builds a
     pairwise covering array greedily from seeded random candidates and re-checks PairwiseCovered from scratch
@@ -61,9 +61,22 @@ COLLECT = (".p", ".lst", ".map", ".noi", ".obj", ".h", ".i", ".mac", ".log", ".t
 REPRO = (".lst", ".map", ".h")        # outputs the property calls reproducible (listing, MAP, share)
 DEFAULT_VEC = {"L": "none", "u": False, "C": False, "s": False, "I": False, "g": "none", "t": "none", "x": 0,
                "n": False, "q": True, "A": False, "r": False, "E": "stderr", "gnu": False, "radix": "none",
-               "P": False, "M": False, "h": False, "split": "none", "src": "argv", "cwd": "parent",
+               "P": False, "M": False, "share": "none", "h": False, "split": "none", "src": "argv", "cwd": "parent",
                "out": "default", "lang": "C", "langvar": "LANG"}
+GEN_INCLUDES = {"ginc/gi1.inc": "\tifndef\tgival\ngival\tequ\t5\n\tendif\n"}     # found only through -i {ROOT}/ginc
 GEN_PROGRAMS = {
+    # ---- every report option has something to write: an INCLUDE found only through -i (leaves a stale errno), IFEXIST
+    # probes of missing / present files, macros with {EXPORT} (-M), SHARED symbols (-c/-p/-a), nested sections with
+    # local / public symbols (-s, -g), symbols in two segments
+    "g_report": "\tcpu\tz80\n\tinclude\t\"gi1.inc\"\n\tifexist\t\"nofile1.inc\"\n\tdb\t99\n\tendif\n"
+                "expm\tmacro\t{EXPORT},pa\n\tdb\tpa\n\tendm\nexpn\tmacro\t{EXPORT}\n\tnop\n\tendm\nnoexp\tmacro\n\tnop\n\tendm\n"
+                "\texpm\t1\n\texpn\n\tnoexp\n\tshared\tgival,lab1\nlab1:\tnop\n\tsection\ts1\nloc1:\tdb\t2\n\tsection\ts2\n"
+                "\tpublic\tloc2\nloc2:\tdb\t3\n\tendsection\n\tendsection\n\tsection\ts3\nloc3:\tdb\t4\n\tendsection\n"
+                "\tifexist\t\"gi1.inc\"\n\tdb\t5\n\tendif\n\tinclude\t\"gi1.inc\"\n",
+    # labels and symbols but NO code, the last file operation is a failed probe (; no code)
+    "g_nocode": "\tcpu\tz80\n\tinclude\t\"gi1.inc\"\nlab:\nx\tequ\tgival+1\n\tshared\tx\n\tsection\tsn\nlc:\n\tendsection\n"
+                "exq\tmacro\t{EXPORT}\n\tnop\n\tendm\n\tifexist\t\"nofile2.inc\"\n\tendif\t; no code\n",
+
     # ---- places where numbers are turned into text and parsed again / formatted by the private printf -----------------
     # 68K packed decimal (DC.P, FMOVE.P #imm: sprintf("%0.16e") split at the exponent letter), IEEE data in all sizes
     "g_packed": "\tcpu\t68040\n\tfpu\ton\n\tdc.p\t1.5e10,-2.25e-3,1e100,123456789.0e5,0.0,-1.0,6.02e23,1e-100\n"
@@ -107,6 +120,8 @@ def vector_opts(vec, stringify):
         a += ["-l"]
     elif vec["L"] == "OLIST":
         a += ["-L", "-OLIST", "{ROOT}/lst/other.lst"]
+    if vec.get("share", "none") != "none":
+        a.append("-" + vec["share"])
     for k in ("u", "C", "s", "I", "A", "P", "M", "n", "q"):
         if vec[k]:
             a.append("-" + k)
@@ -148,7 +163,8 @@ def make_job(src, vec):
     if src.get("copy"):
         job["copy"] = [(src["copy"], name)]
     else:
-        job["files"] = {"%s/%s.asm" % (name, name): src["text"]}
+        job["files"] = dict(GEN_INCLUDES)
+        job["files"]["%s/%s.asm" % (name, name)] = src["text"]
     base = list(src["flags"]) + ["-i", INCLUDE]
     if vec is None:
         job["argv"] = base + ["-q", "%s/%s.asm" % (name, name)]
@@ -227,6 +243,8 @@ _SH7K = re.compile(rb"^\s*cpu\s+sh7", re.I | re.M)
 
 def mechanism(text):
     """source classes for which the pinned tree is known to re-parse / re-use internally formatted integers"""
+    if b"; no code" in text:
+        return "nocode-debuginfo"    # asmdebug.c wrote the symbol / section part of the MAP file without resetting errno
     if _FUNC.search(text):
         return "userfunc"            # arguments of user-defined functions are substituted as text
     if _SH7K.search(text):
@@ -264,7 +282,7 @@ def sources(tier, r):
         out.append({"name": name, "copy": d, "flags": flags, "stringify": b"\\{" in text,
                     "mechanism": mechanism(text), "big": len(text) > 400000})
     for name, text in GEN_PROGRAMS.items():
-        out.append({"name": name, "copy": None, "text": text, "flags": [], "stringify": "\\{" in text,
+        out.append({"name": name, "copy": None, "text": text, "flags": ["-i", "{ROOT}/ginc"], "stringify": "\\{" in text,
                     "mechanism": mechanism(text.encode("latin-1")), "generated": True})
     return out
 
@@ -346,7 +364,7 @@ def main(tier):
     design = outs[-1]
     vecs, rots, allon = design["vectors"], design["rotations"], design["allon"]
     singles = sorted(design["singles"], key=lambda v: json.dumps(v, sort_keys=True))
-    rep.part("covering_array", vectors=len(vecs), factors=24, singles=len(singles),
+    rep.part("covering_array", vectors=len(vecs), factors=25, singles=len(singles),
              rotation_sizes=sorted({len(x) for x in rots}))
     r = rng("c17")
     srcs = sources(tier, r)
@@ -389,7 +407,7 @@ def main(tier):
         rep.evaluated()
         name = s["name"]
         pj, pr = plain[name]
-        if res.timeout or res.sig is not None or res.rc not in (0, 2):
+        if res.timeout or res.sig is not None or res.rc not in (0, 2, 3):      # 3 (fatal) is judged as a difference
             rep.violation("asl ended abnormally under a report configuration (rc=%s sig=%s timeout=%s): %s"
                           % (res.rc, res.sig, res.timeout, " ".join(job["argv"])), case={"source": name, "vector": str(tag)},
                           files={"argv": " ".join(job["argv"]), "env": json.dumps(job.get("env")),
@@ -430,7 +448,7 @@ def main(tier):
     for (s, tag, job) in jobs[2:5]:
         rep.sample({"source": s["name"], "argv": job["argv"], "env": job.get("env"), "cwd": job.get("cwd")})
     return rep.finish(
-        rule="configurations = TLC-built designs over 24 factors (report options, option source, cwd, -o, LANG/LC_ALL): "
+        rule="configurations = TLC-built designs over 25 factors (report options, option source, cwd, -o, LANG/LC_ALL): "
              "quick = all 201 golden + 14 generated sources, each under a rotating 1-wise cover of the pairwise sample + "
              "AllOn (every (source, option value) pair); thorough = each under the whole pairwise sample + AllOn; generated "
              "sources also under every single option; plus a repeated plain run and 2 repeated vector runs per source; "
